@@ -1,6 +1,6 @@
 (* Invariants of the transition system (C03, C04 accounting / no drift, C08). *)
 From Coq Require Import ZArith List Bool String Lia.
-Require Import QzSched.Gen.Params QzSched.SchedModel QzSched.Registry QzSched.ApiProofs QzSched.FetchProofs QzSched.LtsDefs.
+Require Import QzSched.Gen.Params QzSched.SchedModel QzSched.Registry QzSched.ApiProofs QzSched.WfProofs QzSched.FetchProofs QzSched.LtsDefs.
 Import ListNotations.
 Open Scope Z_scope.
 
@@ -220,20 +220,6 @@ Section Lts.
     - left. rewrite (fetch_empty O tstate nft th now id i q ts Hp) in H. injection H as <- <- <- <- _. auto.
   Qed.
 
-  Lemma foreign_wf : forall m q, q_wf O q -> q_wf O (foreign O m q).
-  Proof.
-    intros m q Hwf. destruct m as [e|k| ]; simpl.
-    - destruct (q_get O (e_key e) q) as [x|] eqn:G.
-      + destruct (e_repl e) eqn:R.
-        * destruct (qc_push_ok O HC q e Hwf (or_intror R)) as (q2 & -> & Hw & _). assumption.
-        * rewrite (qc_push_exists O HC q e Hwf); [assumption|congruence|assumption].
-      + destruct (qc_push_ok O HC q e Hwf (or_introl G)) as (q2 & -> & Hw & _). assumption.
-    - destruct (q_get O k q) as [x|] eqn:G.
-      + destruct (qc_remove_some O HC q k x Hwf G) as (q2 & -> & Hw & _). assumption.
-      + rewrite (qc_remove_none O HC q k Hwf G). assumption.
-    - apply (qc_clear_wf O HC).
-  Qed.
-
   (* lookups after a foreign change: the pushed entry, or an old one *)
   Lemma foreign_lookup : forall m q k e, q_wf O q -> q_get O k (foreign O m q) = Some e ->
     q_get O k q = Some e \/ (m = FPush e).
@@ -251,32 +237,6 @@ Section Lts.
         destruct (key_eqb k k0); [discriminate|auto].
       + rewrite (qc_remove_none O HC q k0 Hwf G) in H. auto.
     - rewrite (qc_clear_get O HC) in H. discriminate.
-  Qed.
-
-  Lemma step_wf : forall s l s', q_wf O (s_q s) -> step s l = Some s' -> q_wf O (s_q s').
-  Proof.
-    intros s l s' Hwf H. destruct l; simpl in H.
-    - destruct (api O tstate nft (s_now s) op (s_q s) (s_ts s)) as [[[q1 ts1] evs1] r1] eqn:A.
-      injection H as <-. simpl. eapply api_wf; eauto.
-    - destruct (find_pre c (s_pre s)); [discriminate|].
-      destruct (sched_pre tstate nft (s_now s) jd tr (s_ts s)) as [[ts1 evs1] [e|ent]]; injection H as <-; assumption.
-    - destruct (find_pre c (s_pre s)) as [p|]; [|discriminate].
-      destruct (sched_commit O (ps_entry p) (s_q s)) as [q1 r1] eqn:Cm. injection H as <-. simpl.
-      pose proof (sched_commit_spec O HC _ _ _ _ Hwf Cm) as S.
-      destruct (q_get O (e_key (ps_entry p)) (s_q s)); [destruct (e_repl (ps_entry p))|]; try tauto.
-      destruct S as (-> & _). assumption.
-    - destruct (fetch O tstate nft (thr i) (s_now s) (s_next s) i (s_q s) (s_ts s)) as [[[[q1 ts1] evs1] ret] rst] eqn:F.
-      injection H as <-. simpl. pose proof (fetch_effect _ _ _ _ _ _ _ _ _ _ _ Hwf F) as [(_ & -> & _)|(job & _ & Hw & _)]; assumption.
-    - destruct (find_pend id (s_disp s)); [|discriminate]. injection H as <-. assumption.
-    - destruct (dt <? 0); [discriminate|]. injection H as <-. assumption.
-    - injection H as <-. simpl. apply foreign_wf. assumption.
-  Qed.
-
-  Lemma run_wf : forall tr s s', q_wf O (s_q s) -> run s tr = Some s' -> q_wf O (s_q s').
-  Proof.
-    induction tr as [|l tr IH]; intros s s' Hwf H; simpl in H.
-    - injection H as <-. assumption.
-    - destruct (step s l) as [s1|] eqn:S; [|discriminate]. eapply IH; [|exact H]. eapply step_wf; eauto.
   Qed.
 
   (* ---------- the invariant behind C03 and the accounting part of C04 ---------- *)
@@ -507,7 +467,7 @@ Section Lts.
       injection H as <-. change (EvForeign m :: s_log s) with ([EvForeign m] ++ s_log s).
       apply inv_quiet_extend; auto.
       + repeat constructor.
-      + apply foreign_wf. assumption.
+      + apply (foreign_wf O HC). assumption.
       + intros k e G. destruct (foreign_lookup _ _ _ _ Hwf G) as [Go| ->].
         * eapply entry_ok_mono; [|apply (Hent _ _ Go)]. apply incl_appr, incl_refl.
         * left. exists e. split; [left; reflexivity|auto].
